@@ -1239,11 +1239,15 @@ func TestZZVerifC04Replay(t *testing.T) {
 	// Soft disagreements (alternative-spelling lookups, see altLookups) are
 	// counted; the first few of every kind are written out.
 	softN := map[string]int{}
+	softCap := 6
+	if s := os.Getenv("VERIF_SOFT_CAP"); s != "" {
+		fmt.Sscanf(s, "%d", &softCap)
+	}
 	soft := func(sb *zzC04Soft) {
 		wmu.Lock()
 		defer wmu.Unlock()
 		softN[sb.Alt]++
-		if softN[sb.Alt] <= 6 {
+		if softN[sb.Alt] <= softCap {
 			w.put(sb)
 		}
 	}
